@@ -73,7 +73,7 @@ CHECKS = {
   note='Trusted as C01 plus determinism of a seeded numpy RandomState. CycleDataset has no copy(): refusing is not an unfaithful copy. LocalShuffleDataset.copy(freeze=True) stays random (DESIGN.md 9).',
   ref='7 C13'),
  'C16': dict(
-  text='Lean: the laws proved on the reference data for all inputs and lifted to the model through build_ref (C16_batch_unbatch(_general), C16_concat_split, C16_slice_slice(_spec,_range), C16_map_slice/shuffle/shard/sort, C16_map_concat, C16_map_batch_*, C16_map_cache, C16_map_map, C16_filter_select*, C16_filter_filter, C16_filter_concat, C16_tile_eq_concat, C16_model_*), with counterexample theorems where a law needs error-free inputs. Check: 16 laws instantiated on random base pipelines, both sides observed on the implementation (iteration, len, keys, ds[i]).',
+  text='Lean: the laws proved on the reference data for all inputs and lifted to the model through build_ref (C16_batch_unbatch(_general), C16_concat_split, C16_slice_slice(_spec,_range), C16_map_slice/shuffle/shard/sort, C16_map_concat, C16_map_batch_*, C16_map_cache, C16_map_map, C16_filter_select*, C16_filter_filter, C16_filter_concat, C16_items_map_snd, C16_tile_eq_concat, C16_model_*), with counterexample theorems where a law needs error-free inputs. Check: 18 laws instantiated on random base pipelines, both sides observed on the implementation (iteration, len, keys, ds[i]).',
   note='Trusted as C01; laws are stated for datasets with distinct examples (a concatenation refuses duplicate keys by design).',
   ref='7 C16'),
  'C19': dict(
